@@ -182,6 +182,33 @@ Proof.
 Qed.
 Print Assumptions holder_output_satisfies_asis_refuted.
 
+(* 3. (before fix d2cbd9f) one SD-JWT credential under d1 (no limit, asks a1) and d2 (limit_disclosure required, asks
+   a2): limiting for d2 replaced the disclosures of the shared credential object, so the single presented
+   credential shows a2 only and the credential handed over for d1 does not show a1; repaired, d1 gets the full
+   credential and d2 a limited copy *)
+Definition dfield (i : N) (limit : bool) (key : N) : desc :=
+  {| d_id := i; d_groups := []; d_schema := [(1, false)];
+     d_constraints := Some {| k_limit := limit; k_sii := false;
+        k_fields := [{| f_paths := [key]; f_filter := None; f_optional := false; f_pred := false |}] |};
+     d_format := None |}.
+Definition sd_cred : cred :=
+  {| c_id := 7; c_issuer := 50; c_subject := 60; c_types := [1]; c_proofs := []; c_jwt := 1; c_sd := true;
+     c_rawsubj := false; c_attrs := [(1, VStr 1); (2, VNum 5); (3, VNum 6)] |}.
+Definition shared_object_defn : defn :=
+  {| p_format := None; p_reqs := []; p_descs := [dfield 1 false 1; dfield 2 true 2] |}.
+
+Theorem holder_output_satisfies_sdjwt_asis_refuted :
+  (exists x c, create_vp_shared shared_object_defn [sd_cred] = COk x /\ length (vp_creds x) = 1%nat /\
+               In {| mp_id := 1; mp_idx := 0; mp_vcfmt := 5 |} (vp_map x) /\
+               nth_error (vp_creds x) 0 = Some c /\ lookup 1 c = None) /\
+  (exists x c, create_vp Fixed shared_object_defn [sd_cred] = COk x /\ length (vp_creds x) = 2%nat /\
+               In {| mp_id := 1; mp_idx := 0; mp_vcfmt := 5 |} (vp_map x) /\
+               nth_error (vp_creds x) 0 = Some c /\ lookup 1 c = Some (VStr 1)).
+Proof.
+  split; eexists; eexists; (split; [vm_compute; reflexivity|]); vm_compute; repeat split; auto.
+Qed.
+Print Assumptions holder_output_satisfies_sdjwt_asis_refuted.
+
 (* ---------- non-vacuity: a nested rule, a limited-disclosure descriptor with a predicate, a JWT credential ---------- *)
 Example accepts_nonvacuous :
   let dl := {| d_id := 3; d_groups := [2]; d_schema := [(1, true)];
